@@ -15,14 +15,16 @@ from lib.common import cps
 
 PROP = 'C06'
 LEVEL = 'proof'
-PROPS_MODULES = ['RTV.Props.C06']
+PROPS_MODULES = ['RTV.Props.C06', 'RTV.Props.C06Front']
 GEN = ['chartables', 'dtmaps', 'dateregex', 'regexes']
 REQUIRED_THEOREMS = ['abs_date', 'abs_date_reference_independent', 'two_digit_year', 'two_digit_year_gap',
                      'two_digit_year_witness', 'invalid_date_not_resolved', 'pivots_sane', 'ymd_shape',
                      'month_map_en', 'day_map_en', 'english_month_names',
                      'month_map_es', 'month_map_esmx', 'month_map_fr', 'month_map_pt', 'month_map_it', 'month_map_de',
                      'month_map_nl', 'day_map_es', 'day_map_esmx', 'day_map_fr', 'day_map_pt', 'day_map_it',
-                     'day_map_de', 'day_map_nl', 'numeric_keys_zh', 'abs_date_zh', 'zh_tables']
+                     'day_map_de', 'day_map_nl', 'numeric_keys_zh', 'abs_date_zh', 'zh_tables',
+                     'front_groups_en', 'front_decodes', 'front_abs_date', 'front_abs_date_engine', 'retables_ascii',
+                     'token_tables', 'layouts_have_facts', 'front_day32_rejected']
 RULE = ('unit: format_date/luis_date on all 73,049 dates 1900..2099 + out-of-range years; generate_dates on a grid '
         '(years incl. 1,4,100,1900,2000,2100,9999 x months 0..13 x days 0,1,28..32 x no_year x references); match_to_date on '
         'every match of every date regex of the 8 BaseDateParser cultures over strings built from the contract layouts, '
@@ -555,6 +557,8 @@ def search(ctx, proof_problems):
     """A table fact or pivot theorem no longer checks: look for an English expression on which the property itself fails,
     built from the table entries the facts talk about (numeric keys, ordinal-suffixed keys, month names)."""
     T = dtres.Tree()
+    # front-end obligations (Props/C06Front: regenerated date regexes / layouts): the Lean front end over layout x date grid
+    datefrontcorr.grid(ctx, T, load_contract(), render, judge, full=True)
     dp = T.date_parser('en-us')
     moy, dom = dp.config.month_of_year, dp.config.day_of_month
     names = ['january', 'february', 'march', 'april', 'may', 'june', 'july', 'august', 'september', 'october', 'november',
